@@ -59,4 +59,24 @@ def delete (tab : List Key) (k : Key) : List Key × Bool :=
   | .at_ i => (tab.eraseIdx i, true)
   | .missing _ => (tab, false)
 
+/-! ### re-sorting after a change of affixes (`_GD_UpdateAffixes`, src/fragment.c)
+
+The fields of the affected fragments get new codes, then
+`qsort(D->entry, D->n_entries, sizeof(gd_entry_t*), _GD_EntryCmp)` restores the
+order.  The sort is modelled by ordered insertion (any comparison sort returns
+the same table when the names are distinct). -/
+
+/-- ordered insertion by `_GD_strlencmp` -/
+def ins (k : Key) : List Key → List Key
+  | [] => [k]
+  | x :: xs => if strlencmp k x = .lt then k :: x :: xs else x :: ins k xs
+
+/-- the table after `qsort` with `_GD_EntryCmp` -/
+def resort (tab : List Key) : List Key := tab.foldr ins []
+
+/-- `_GD_UpdateAffixes`: every name is replaced by `f` of it (the identity outside
+    the affected fragments); `doSort` is whether the `qsort` is reached -/
+def reaffix (tab : List Key) (f : Key → Key) (doSort : Bool) : List Key :=
+  if doSort then resort (tab.map f) else tab.map f
+
 end GdModel.Names
